@@ -7,6 +7,7 @@ import (
 	"errors"
 	"sync"
 	"sync/atomic"
+	"time"
 
 	"github.com/ThreeDotsLabs/watermill/message"
 )
@@ -22,6 +23,7 @@ type Subscription struct {
 	closing chan struct{}
 	once    sync.Once
 	Done    chan struct{} // closed when the output channel has been closed
+	owner   *Sub
 }
 
 type Sub struct {
@@ -35,7 +37,13 @@ type Sub struct {
 	SubscribeErr   error
 	OnSubscribe    func(topic string)
 	OnClose        func()
+	OnCloseStart   func()
 	Buffer         int
+	// Drain makes Close wait (bounded by DrainBound) until every message handed to a consumer has been
+	// settled before the output channels are closed -- a subscriber that drains its in-flight messages.
+	Drain      bool
+	DrainBound time.Duration
+	sent       []*message.Message
 }
 
 // String makes the router report Name as the subscriber type name.
@@ -56,7 +64,7 @@ func (s *Sub) Subscribe(ctx context.Context, topic string) (<-chan *message.Mess
 		s.mu.Unlock()
 		return nil, errors.New("scripted subscriber closed")
 	}
-	sp := &Subscription{Topic: topic, Ctx: ctx, out: make(chan *message.Message, s.Buffer), closing: make(chan struct{}), Done: make(chan struct{})}
+	sp := &Subscription{Topic: topic, Ctx: ctx, out: make(chan *message.Message, s.Buffer), closing: make(chan struct{}), Done: make(chan struct{}), owner: s}
 	s.subs = append(s.subs, sp)
 	cb := s.OnSubscribe
 	s.mu.Unlock()
@@ -66,6 +74,7 @@ func (s *Sub) Subscribe(ctx context.Context, topic string) (<-chan *message.Mess
 	go func() {
 		select {
 		case <-ctx.Done():
+			s.drain()
 		case <-s.closing:
 		}
 		sp.close()
@@ -94,6 +103,11 @@ func (sp *Subscription) Send(msg *message.Message) bool {
 	}
 	select {
 	case sp.out <- msg:
+		if sp.owner != nil {
+			sp.owner.mu.Lock()
+			sp.owner.sent = append(sp.owner.sent, msg)
+			sp.owner.mu.Unlock()
+		}
 		return true
 	case <-sp.closing:
 		return false
@@ -140,7 +154,14 @@ func (s *Sub) Close() error {
 	s.closed = true
 	subs := append([]*Subscription{}, s.subs...)
 	cb := s.OnClose
+	cbs := s.OnCloseStart
 	s.mu.Unlock()
+	if cbs != nil {
+		cbs()
+	}
+	if first {
+		s.drain()
+	}
 	if first {
 		close(s.closing)
 	}
@@ -151,6 +172,29 @@ func (s *Sub) Close() error {
 		cb()
 	}
 	return nil
+}
+
+// drain waits (bounded) until every message handed to a consumer so far has been settled (Drain mode only).
+func (s *Sub) drain() {
+	s.mu.Lock()
+	sent := append([]*message.Message{}, s.sent...)
+	drain, bound := s.Drain, s.DrainBound
+	s.mu.Unlock()
+	if !drain {
+		return
+	}
+	if bound == 0 {
+		bound = 8 * time.Second
+	}
+	deadline := time.After(bound)
+	for _, m := range sent {
+		select {
+		case <-m.Acked():
+		case <-m.Nacked():
+		case <-deadline:
+			return
+		}
+	}
 }
 
 func (s *Sub) CloseCalls() int { return int(atomic.LoadInt32(&s.closeCalls)) }
@@ -218,15 +262,24 @@ func (p *Pub) CloseCalls() int { return int(atomic.LoadInt32(&p.closeCalls)) }
 
 // SettleState samples the settlement of a message without blocking.
 func SettleState(m *message.Message) string {
+	acked, nacked := false, false
 	select {
 	case <-m.Acked():
-		return "ack"
+		acked = true
 	default:
 	}
 	select {
 	case <-m.Nacked():
-		return "nack"
+		nacked = true
 	default:
+	}
+	switch {
+	case acked && nacked:
+		return "both" // never legal: a message is settled once
+	case acked:
+		return "ack"
+	case nacked:
+		return "nack"
 	}
 	return "none"
 }
